@@ -2,7 +2,7 @@
    Contents of a live block = the log of its owner's writes ([contents s p i] = byte at offset i, None = indeterminate);
    the pool's memcpy is modelled as the transfer of that log (the harness compares real bytes against canaries). *)
 From Coq Require Import List NArith Bool.
-From FV Require Import Slab.SlabModel Slab.SlabBasics Slab.SlabInv Slab.SlabC01 Slab.SlabC02.
+From FV Require Import Slab.SlabModel Slab.SlabBasics Slab.SlabFail Slab.SlabInv Slab.SlabC01 Slab.SlabC02 Slab.SlabChurn.
 Import ListNotations.
 Local Open Scope N_scope.
 
@@ -15,7 +15,7 @@ Local Open Scope N_scope.
 Theorem C02_realloc_spec :
   forall (c : cfg) (ops : list op) (p n : N) (e : env) (b : blk),
     cfg_ok c = true ->
-    policy_ok c (ops ++ [Realloc p n e]) -> api_ok c (ops ++ [Realloc p n e]) -> history_short (ops ++ [Realloc p n e]) ->
+    policy_ok c (ops ++ [Realloc p n e]) -> api_ok c (ops ++ [Realloc p n e]) ->
     let s := run c ops in
     let x := step c s (Realloc p n e) in
     find_blk p (live s) = Some b -> n <> 0 ->
@@ -58,7 +58,7 @@ Print Assumptions C02_null_and_zero_cases.
    the class is free.  Hence steady alloc/free cycles below the peak map nothing new. *)
 Theorem C02_footprint :
   forall (c : cfg) (ops : list op),
-    cfg_ok c = true -> policy_ok c ops -> api_ok c ops -> history_short ops ->
+    cfg_ok c = true -> policy_ok c ops -> api_ok c ops ->
     forall pre, prefix pre ops ->
     let s := run c pre in
     forall i, i < nbuckets c ->
@@ -69,6 +69,23 @@ Theorem C02_footprint :
 Proof. exact C02_footprint_main. Qed.
 Print Assumptions C02_footprint.
 
+(* Arbitrarily long churn (D42): after any admissible history, cnt+1 allocate(n)/free pairs of a small size whose class
+   has a partial slab never stop and end in the SAME pool state as a single pair (slabs with their free lists and
+   num_reserved, partial trees, used pages, live blocks all unchanged; only the ghost peak counter is raised), for
+   every cnt.  Before the D42 fix num_reserved grew by one per pair and the 2^32-th free stopped in FRG_ASSERT. *)
+Theorem C02_churn_returns_to_same_state :
+  forall (c : cfg) (ops : list op) (n : N) (e : env) (idx : N) (cnt : nat),
+    cfg_ok c = true -> policy_ok c ops -> api_ok c ops ->
+    let s := run c ops in
+    churn_class c s n = Some idx ->
+    let pairs := concat (repeat [Alloc n e; Free (churn_ptr s idx)] (S cnt)) in
+    run_from c s pairs = churn_fast s idx
+    /\ Forall (fun x => is_stop (fst x) = false) (trace_from c s pairs)
+    /\ slabs (churn_fast s idx) = slabs s /\ larges (churn_fast s idx) = larges s /\ partial (churn_fast s idx) = partial s
+    /\ used (churn_fast s idx) = used s /\ live (churn_fast s idx) = live s.
+Proof. exact C02_churn_main. Qed.
+Print Assumptions C02_churn_returns_to_same_state.
+
 (* NOT PROVED as a separate theorem (kept visible): C02_owner_only_writes -- every CAccess range with mode write in the
    callback list of a step is disjoint from every block live throughout the call.  It is a corollary of C01's
    disjoint_from_bookkeeping (headers, link words) plus C02_realloc_spec (the memcpy destination is the block being
@@ -78,11 +95,17 @@ Definition c02_cfg : cfg := mkCfg 4096 4096 4096 4 true true 40 104.
 Definition c02_ops : list op :=
   [Alloc 24 (MapRet 4096); Write 8160 0 24 5; Realloc 8160 30 MapFail; Realloc 8160 10 MapFail; Realloc 8160 60 (MapRet 8192)].
 Example C02_hyps_satisfiable :
-  cfg_ok c02_cfg = true /\ policy_ok c02_cfg c02_ops /\ api_ok c02_cfg c02_ops /\ history_short c02_ops
+  cfg_ok c02_cfg = true /\ policy_ok c02_cfg c02_ops /\ api_ok c02_cfg c02_ops
   /\ (let s := run c02_cfg c02_ops in
       contents s 12224 0 = Some 5 /\ contents s 12224 9 = Some 68 /\ contents s 12224 10 = None
       /\ find_blk 8160 (live s) = None /\ cnum s 2 = 1 /\ cnum s 3 = 1 /\ peak_of s 2 = 1 /\ nlive_of s 2 = 0).
-Proof. unfold policy_ok, api_ok, history_short. vm_compute. repeat split; reflexivity. Qed.
+Proof. unfold policy_ok, api_ok. vm_compute. repeat split; reflexivity. Qed.
+Example C02_churn_nonvacuous :
+  let s := run c02_cfg [Alloc 24 (MapRet 4096)] in
+  churn_class c02_cfg s 30 = Some 2 /\ churn_ptr s 2 = 8128
+  /\ run_from c02_cfg s (concat (repeat [Alloc 30 MapFail; Free 8128] 50)) = churn_fast s 2
+  /\ map sl_nres (slabs (churn_fast s 2)) = [1].
+Proof. vm_compute. repeat split; reflexivity. Qed.
 Example C02_null_cases_nonvacuous :
   let s := run c02_cfg [Alloc 24 (MapRet 4096)] in
   res_of (step c02_cfg s (Realloc 8160 0 MapFail)) = RNull
